@@ -1,8 +1,9 @@
 #!/bin/bash
 # Parallel version of matrix.sh: every seeded change is applied to its own scratch copy of /repo
 # (under /tmp, removed afterwards) and checked with `govc check -dir`. Rewrites seeded/CAUGHT_BY.tsv.
-# usage: matrix_par.sh [jobs]   (default 4)
+# usage: matrix_par.sh [jobs] [id-regex]   (default 4 jobs, all ids; with a regex only those rows are replaced)
 J=${1:-4}
+F=${2:-.}
 cd /verif
 export GOFLAGS=-mod=mod GOPROXY=off GOSUMDB=off GOTOOLCHAIN=local
 one() {
@@ -21,7 +22,8 @@ one() {
 }
 export -f one
 rm -rf /tmp/mx-snap; rsync -a --exclude .git /repo/ /tmp/mx-snap/   # one consistent snapshot; /repo may be used meanwhile
-ls seeded | grep -E '^C[0-9]+-[0-9]+$' | xargs -P $J -I{} bash -c 'one {}' > /tmp/caught.par.tsv
+ls seeded | grep -E '^C[0-9]+-[0-9]+$' | grep -E "$F" | xargs -P $J -I{} bash -c 'one {}' > /tmp/caught.par.tsv
 rm -rf /tmp/mx-snap
-sort -V /tmp/caught.par.tsv > seeded/CAUGHT_BY.tsv; rm -f /tmp/caught.par.tsv
+if [ "$F" != . ]; then cut -f1 /tmp/caught.par.tsv > /tmp/caught.ids; grep -v -w -F -f /tmp/caught.ids seeded/CAUGHT_BY.tsv >> /tmp/caught.par.tsv; fi
+sort -V /tmp/caught.par.tsv > seeded/CAUGHT_BY.tsv; rm -f /tmp/caught.par.tsv /tmp/caught.ids
 echo "missed: $(grep -c MISSED seeded/CAUGHT_BY.tsv)  broken: $(grep -c 'BROKEN\|PATCH-FAILED' seeded/CAUGHT_BY.tsv)  total: $(wc -l < seeded/CAUGHT_BY.tsv)"
